@@ -243,7 +243,7 @@ func (c *Ctx) rulesC06(a *coreAnchors, la *LockAnalysis) {
 	}
 
 	// C06.proc
-	if ps := c.fn(pm + ":Machine.processSubscriptions"); ps != nil {
+	if ps, _ := c.procSubsFn(); ps != nil {
 		for _, col := range []string{"ProcessWhen", "ProcessWhenTime", "ProcessWhenQueue", "ProcessWhenQuery"} {
 			c.check(len(c.sitesIn(ps, pm+":Subscriptions."+col)) >= 1, "C06.proc", "processSubscriptions calls "+col, ps.Pos(), "collector not reached: its waiters would never be woken")
 		}
